@@ -269,7 +269,8 @@ Staircase(p, k) ==
 -----------------------------------------------------------------------------
 (* Integer affine maps (exact images; RefInside must be invariant)           *)
 (* m = <<a, b, c, d, tx, ty>>:  (x, y) -> (a x + b y + tx, c x + d y + ty),  *)
-(* a d - b c = +1 or -1, tx, ty even when applied to vertices                *)
+(* a d - b c # 0 (mirror images, quarter turns, shears, translations,        *)
+(* integer scalings)                                                         *)
 
 MapPt(m, a) == <<m[1] * a[1] + m[2] * a[2] + m[5], m[3] * a[1] + m[4] * a[2] + m[6]>>
 MapPoly(m, p) == [i \in 1..Len(p) |-> MapPt(m, p[i])]
